@@ -28,7 +28,11 @@ TOP = {
     "tags": {"v1": [{"name": "t1", "description": "tag one"}]},
     "externalDocs": {"v1": {"url": "https://docs.example", "description": "docs"}},
     "extensions": {"v1": {"x-base": {"a": 1, "b": ["c"]}}},
-    "paths": {"v1": {"/base": {"get": {"operationId": "base-get", "responses": {"200": {"description": "ok"}}}}}},
+    # the base has paths of its own, among them the very keys the programs define (`/`, `/s`, `/audit`) with other content
+    "paths": {"v1": {"/base": {"get": {"operationId": "base-get", "responses": {"200": {"description": "ok"}}}},
+                     "/": {"summary": "stale", "delete": {"operationId": "stale-root", "responses": {"418": {"description": "stale"}}}},
+                     "/s": {"get": {"operationId": "stale-s", "responses": {"418": {"description": "stale"}}}},
+                     "/audit": {"post": {"operationId": "stale-audit", "responses": {"418": {"description": "stale"}}}}}},
 }
 COMP = {
     "schemas": {"v1": {"BaseSchema": {"type": "string"}}},
